@@ -561,6 +561,10 @@ func (s *Server) validateConnect(cl *Client, pk packets.Packet) packets.Code {
 		return packets.ErrUnspecifiedError
 	}
 
+	if pk.Connect.WillFlag && !IsValidFilter(pk.Connect.WillTopic, true) {
+		return packets.ErrTopicNameInvalid // a will topic must be a valid topic name [MQTT-3.1.3-11]
+	}
+
 	if cl.Properties.ProtocolVersion < s.Options.Capabilities.MinimumProtocolVersion {
 		return packets.ErrUnsupportedProtocolVersion // [MQTT-3.1.2-2]
 	} else if cl.Properties.Will.Qos > s.Options.Capabilities.MaximumQos {
@@ -1551,6 +1555,9 @@ func (s *Server) sendLWT(cl *Client) {
 	}
 
 	modifiedLWT := s.hooks.OnWill(cl, cl.Properties.Will)
+	if !cl.Net.Inline && !s.hooks.OnACLCheck(cl, modifiedLWT.TopicName, true) {
+		return // the will message is subject to the same write permission as any other publish
+	}
 
 	pk := packets.Packet{
 		FixedHeader: packets.FixedHeader{
